@@ -5,7 +5,7 @@ From Coq Require Import ZArith NArith List Bool.
 From Falcon.lib Require Import PyStr.
 From Falcon.gen Require Import Consts.
 From Falcon.C01 Require Import Model Spec.
-From Falcon.C02 Require Import Model Spec Proofs.
+From Falcon.C02 Require Import Model Spec Proofs ProofsInv.
 Import ListNotations.
 
 (* No route matches: the most recently added matching sink or static route of the kind
@@ -39,15 +39,11 @@ Theorem C02_responder_spec : forall r suffix m,
 Proof. exact responder_spec. Qed.
 Print Assumptions C02_responder_spec.
 
-(* FULL STATEMENT: a matched route yields exactly the outcome of spec_responder for the
-   resource registered with the matched route id (route fields as kwargs).
-   PROVED (partial): the same, or OBroken (the matched id has no method map).  Missing: the
-   invariant that every resource id in the router tree has an entry in the app's map table;
-   the harness checks that OBroken never occurs (it is not a possible observation). *)
-Theorem C02_route_dispatch_partial : forall cinst cmulti sbs ops method path rid ps,
+(* A matched route yields exactly the outcome of spec_responder for the resource registered
+   under the matched route id, with the route's fields as kwargs — for every history. *)
+Theorem C02_route_dispatch : forall cinst cmulti sbs ops method path rid ps,
   mem method META_METHODS = false ->
   dfs cinst cmulti (a_roots (build cinst cmulti sbs ops)) path = Some (rid, ps) ->
-  get_responder cinst cmulti (build cinst cmulti sbs ops) method path = OBroken \/
   exists tpl r suffix, In (AddRoute tpl rid r suffix) ops /\
     get_responder cinst cmulti (build cinst cmulti sbs ops) method path =
     match spec_responder r suffix method with
@@ -56,8 +52,15 @@ Theorem C02_route_dispatch_partial : forall cinst cmulti sbs ops method path rid
     | Some (RNotAllowed al) => O405 al
     | None => O400
     end.
-Proof. exact route_dispatch. Qed.
-Print Assumptions C02_route_dispatch_partial.
+Proof. exact route_dispatch_full. Qed.
+Print Assumptions C02_route_dispatch.
+
+(* Every id the router can return has a method map: the internal-inconsistency outcome is
+   unreachable for every history. *)
+Theorem C02_never_broken : forall cinst cmulti sbs ops method path,
+  get_responder cinst cmulti (build cinst cmulti sbs ops) method path <> OBroken.
+Proof. exact never_broken. Qed.
+Print Assumptions C02_never_broken.
 
 (* The automatic OPTIONS responder lists exactly the implemented (non-meta) methods ... *)
 Theorem C02_options_allow_exact : forall r suffix x,
